@@ -164,6 +164,26 @@ pub mod shim {
         }
         None
     }
+    /// the same for a closure that takes the element by reference
+    pub fn position_ref<F: Fn(&u8) -> bool>(s: &[u8], f: F) -> (r: Option<usize>)
+        requires forall|b: &u8| f.requires((b,)),
+        ensures match r {
+            Some(i) => i < s@.len() && f.ensures((&s@[i as int],), true)
+                && forall|j: int| 0 <= j < i ==> f.ensures((&#[trigger] s@[j],), false),
+            None => forall|j: int| 0 <= j < s@.len() ==> f.ensures((&#[trigger] s@[j],), false),
+        }
+    {
+        let mut i = 0;
+        while i < s.len()
+            invariant i <= s@.len(), forall|b: &u8| f.requires((b,)),
+                forall|j: int| 0 <= j < i ==> f.ensures((&#[trigger] s@[j],), false),
+            decreases s@.len() - i
+        {
+            if f(&s[i]) { return Some(i); }
+            i = i + 1;
+        }
+        None
+    }
     /// contract of `s.iter().position(f)` for byte slices (N2): search from the front
     pub fn position<F: Fn(u8) -> bool>(s: &[u8], f: F) -> (r: Option<usize>)
         requires forall|b: u8| f.requires((b,)),
